@@ -1,2 +1,14 @@
 import BklProofs.C16
-#print axioms Bkl.C16_placeholder
+#print axioms Bkl.C16_common
+#print axioms Bkl.C16_required_on_conflict
+#print axioms Bkl.C16_required_on_conflict_scalar
+#print axioms Bkl.C16_idempotent
+#print axioms Bkl.C16_keeps_shared
+#print axioms Bkl.C16_fold_same
+#print axioms Bkl.C16_fold
+#print axioms Bkl.C16_fold_wf
+#print axioms Bkl.C16_fold_needs_plain
+#print axioms Bkl.C16_fold_partial
+#print axioms Bkl.C16_lossless
+#print axioms Bkl.C16_lossless_migrate
+#print axioms Bkl.C16_lossless_doc
